@@ -297,6 +297,11 @@ class Scheduler(object):
             cyc = self._closes_cycle(me)
             if cyc:
                 self.deadlock = cyc
+                # summarise now: _end() unwinds this thread while the main thread would be reading its state
+                try:
+                    self._snap = (self.thread_summary(), self.blocked_clients())
+                except Exception:
+                    self._snap = None
                 me.enabled = True
                 self._end("deadlock")
         else:
@@ -349,16 +354,14 @@ class Scheduler(object):
             if not isinstance(owner, VThread):
                 return None
             chain.append(
-                {"thread": t.name, "waits_for": what, "held_by": owner.name, "stack": None}
+                {"thread": t.name, "waits_for": what, "held_by": owner.name, "stack": None, "_vt": t}
             )
             if owner is me:
                 frames = sys._current_frames()
-                names = {}
                 for c in chain:
-                    names[c["thread"]] = c
-                for vt in self.threads:
-                    if vt.name in names and vt.ident in frames:
-                        names[vt.name]["stack"] = _fmt_stack(frames[vt.ident])
+                    vt = c.pop("_vt")  # (several threads may share a name)
+                    if vt.ident in frames:
+                        c["stack"] = _fmt_stack(frames[vt.ident], limit=30)
                 return chain
             if owner.done or owner.enabled or owner.deadline is not None:
                 return None
@@ -487,6 +490,7 @@ class Scheduler(object):
         for t in self.threads:
             d = {
                 "name": t.name,
+                "tid": t.tid,
                 "client": t.client,
                 "done": t.done,
                 "exc": t.exc,
@@ -498,7 +502,13 @@ class Scheduler(object):
                 if frames is None:
                     frames = sys._current_frames()
                 d["blocked_id"] = id(t.blocked_on)
-                d["stack"] = _fmt_stack(frames.get(t.ident))
+                d["stack"] = _fmt_stack(frames.get(t.ident), limit=30)
+                fr = frames.get(t.ident)
+                while fr is not None:
+                    if fr.f_code.co_name == "_block_until_ready":
+                        d["park_self"] = id(fr.f_locals.get("self"))  # which executor's blocking submit
+                        break
+                    fr = fr.f_back
             out.append(d)
         return out
 
@@ -1312,6 +1322,8 @@ def run_case(clients, tape=(), block_tape=(), clock_mode="exact", max_steps=4000
             except Exception:
                 s.stuck_clients = []
         s.final_threads = s.thread_summary()
+        if getattr(s, "_snap", None):
+            s.final_threads, s.stuck_clients = s._snap
     finally:
         try:
             s.abort()
